@@ -10,11 +10,13 @@
 (* CRC-32 is computed on a <<hi16, lo16>> pair so that every intermediate  *)
 (* value fits TLC's 32-bit integers.                                       *)
 (***************************************************************************)
-EXTENDS Bytes, Bitwise
+EXTENDS Bytes, Bitwise, SequencesExt
 
-RECURSIVE SumMod(_, _, _)
-SumMod(s, i, acc) == IF i > Len(s) THEN acc ELSE SumMod(s, i + 1, (acc + s[i]) % 256)
-Sum8(s) == SumMod(s, 1, 0)
+(* Long inputs: the folds below use SequencesExt!FoldLeft, which TLC runs   *)
+(* as a Java loop (strict, constant stack depth).  A hand-written          *)
+(* RECURSIVE operator with an accumulator would build a chain of lazy      *)
+(* argument thunks as long as the input.                                   *)
+Sum8(s) == FoldLeft(LAMBDA acc, b : (acc + b) % 256, 0, s)
 
 (* sum of a run-length described string without expanding it *)
 RECURSIVE Sum8Runs(_)
@@ -26,9 +28,7 @@ Sum8Runs(runs) == IF runs = <<>> THEN 0
 RECURSIVE C16Bits(_, _)
 C16Bits(c, k) == IF k = 0 THEN c
                  ELSE C16Bits(IF c % 2 = 1 THEN (c \div 2) ^^ 40961 ELSE c \div 2, k - 1)   \* 0xA001
-RECURSIVE C16(_, _, _)
-C16(s, i, c) == IF i > Len(s) THEN c ELSE C16(s, i + 1, C16Bits(c ^^ s[i], 8))
-Crc16Val(s) == C16(s, 1, 65535)
+Crc16Val(s) == FoldLeft(LAMBDA c, b : C16Bits(c ^^ b, 8), 65535, s)
 Crc16Modbus(s) == Digits(Crc16Val(s), 2)
 
 ---------------------------------------------------------------------------
@@ -38,16 +38,19 @@ XorPoly(p) == << p[1] ^^ 60856, p[2] ^^ 33568 >>          \* 0xEDB8, 0x8320
 RECURSIVE C32Bits(_, _)
 C32Bits(p, k) == IF k = 0 THEN p
                  ELSE C32Bits(IF p[2] % 2 = 1 THEN XorPoly(ShiftR1(p)) ELSE ShiftR1(p), k - 1)
-(* the 256-entry table, derived from the bitwise step *)
+(* the 256-entry table, derived from the bitwise step.  It is handed down   *)
+(* as an argument (a LET-bound value is computed once per call): TLC would  *)
+(* otherwise re-derive it at every use.                                      *)
 Crc32Table == [i \in 0..255 |-> C32Bits(<<0, i>>, 8)]
 ShiftR8(p) == << p[1] \div 256, (p[2] \div 256) + (p[1] % 256) * 256 >>
-C32Byte(p, b) == LET t == Crc32Table[(p[2] ^^ b) % 256]
-                     q == ShiftR8(p)
-                 IN << q[1] ^^ t[1], q[2] ^^ t[2] >>
+C32ByteT(tab, p, b) == LET t == tab[(p[2] ^^ b) % 256]
+                           q == ShiftR8(p)
+                       IN << q[1] ^^ t[1], q[2] ^^ t[2] >>
+C32Byte(p, b) == C32ByteT(Crc32Table, p, b)
 C32ByteBitwise(p, b) == C32Bits(<<p[1], p[2] ^^ b>>, 8)
-RECURSIVE C32(_, _, _)
-C32(s, i, p) == IF i > Len(s) THEN p ELSE C32(s, i + 1, C32Byte(p, s[i]))
-Crc32Pair(s) == LET p == C32(s, 1, <<65535, 65535>>) IN << p[1] ^^ 65535, p[2] ^^ 65535 >>
+Crc32Pair(s) == LET tab == Crc32Table
+                    p == FoldLeft(LAMBDA q, b : C32ByteT(tab, q, b), <<65535, 65535>>, s)
+                IN << p[1] ^^ 65535, p[2] ^^ 65535 >>
 Crc32Ieee(s) == LET p == Crc32Pair(s) IN Digits(p[1], 2) \o Digits(p[2], 2)
 
 ---------------------------------------------------------------------------
